@@ -294,6 +294,7 @@ type linCtx struct {
 	memo map[ssa.Value]lin
 	// element facts: slice value (canonical key) -> constraints over atom "ELEM"
 	elemFacts map[string][]cons
+	noElemFallback bool
 	// values that are loads of an element of a slice with facts: atom -> slice key
 	elemAtoms map[string]string
 	elemVals  map[string]ssa.Value // atom of an element load -> the slice value it was loaded from
